@@ -37,15 +37,17 @@ int EVP_DigestUpdate(EVP_MD_CTX *c, const void *d, size_t n)
     return 1;
 }
 /* known transcripts -> digest values: equal transcripts give equal digests, different ones different digests */
+#define VBUMPS 4
+static int g_ver[2], g_loaded_ver[2], g_bumps;      /* ABSTRACT_DIGEST: file versions */
 static uint8_t known_T[3][TMAX]; static unsigned known_len[3]; static int n_known;
 int EVP_DigestFinal_ex(EVP_MD_CTX *c, unsigned char *md, unsigned int *s)
 {
     (void)c;
 #ifdef ABSTRACT_DIGEST
     {
-	bool changed = false;
-	for (int p = 0; p < 2; p++) if (g_uses_path[p] && g_stat_look[p] >= 1 && !same_tuple(&g_stat[p][0], &g_stat[p][1])) changed = true;
-	for (int i = 0; i < 32; i++) md[i] = (unsigned char)(i == 0 ? (changed ? 0xB1 : 0xB0) : 0x22);
+	/* the digest is a function of the current VERSION of each file the designation names (a version = a stat tuple) */
+	unsigned v = (g_uses_path[0] ? (unsigned)g_ver[0] : 0) + 8 * (g_uses_path[1] ? (unsigned)g_ver[1] : 0);
+	for (int i = 0; i < 32; i++) md[i] = (unsigned char)(i == 0 ? 0xB0 + v : 0x22);
 	*s = 32; return 1;
     }
 #endif
@@ -80,6 +82,8 @@ ssize_t ut_load_text_file(const char *fn, char **data)
 {
     g_load_calls++;
     g_stat_look[path_id(fn)]++;            /* the file may be replaced while it is being read */
+    g_loaded_ver[path_id(fn)] = g_ver[path_id(fn)];
+    if (g_bumps < VBUMPS && nd_bool()) { g_ver[path_id(fn)]++; g_bumps++; }     /* ... any number of times in a row (bounded by VBUMPS) */
     if (g_load_fail) { errno = g_load_errno; return -1; }
     char *d = malloc(4); ASSUME(d != NULL); d[0] = 'P'; d[1] = fn[0]; d[2] = 0; *data = d; return 3;
 }
@@ -257,6 +261,11 @@ int main(void)
 	CHECK(g_key_matches, "C18: certificate and key that do not match are refused");
 	if (it[2].type != item_type_none) CHECK(g_bundle_n >= 1 && !g_bundle_damaged_tail, "C18: a trusted-CA bundle is accepted only if every entry of it parses (a damaged or truncated tail is malformed material)");
 	WITNESS(it[0].type == item_type_file && g_stat_look[0] + g_stat_look[1] >= 2, "a credential file changed while being loaded: loop re-read it");
+#ifdef ABSTRACT_DIGEST
+	{ unsigned lv = (g_uses_path[0] ? (unsigned)g_loaded_ver[0] : 0) + 8 * (g_uses_path[1] ? (unsigned)g_loaded_ver[1] : 0);
+	  CHECK(en->hash[0] == (uint8_t)(0xB0 + lv), "C18: a context is cached under the key of exactly the material it was built from - however often the files were replaced while it was being loaded (otherwise later sockets get credentials that the files, stable since, do not contain)");
+	  WITNESS(g_bumps >= 3, "credential file replaced three times in a row while loading"); }
+#endif
     } else {
 	CHECK(e == EPROTO, "C18: missing, unreadable, malformed or mismatching material fails with EPROTO");
 	CHECK(g_ctx_free == g_ctx_new, "C08: a context that could not be completed is freed; nothing is cached or leaked");
